@@ -1808,9 +1808,9 @@ func (sc *c09Scn) poolCheck(e c09EvEnt, log []c09LogEnt) (int, string) {
 		if p.id != e.p {
 			continue
 		}
-		for _, rs := range p.script0 {
+		for h, rs := range p.script0 {
 			for _, rp := range rs {
-				if rp.blk >= 0 && !isGen[rp.blk] {
+				if rp.blk >= 0 && (!isGen[rp.blk] || (h >= 1 && (h > sc.n || rp.blk != sc.gen[h]))) {
 					return 0, "skipped:receiver-not-on-the-honest-chain"
 				}
 			}
